@@ -1104,8 +1104,9 @@ fn calc_compu_method_limits(
                         upper_limit = c.a * upper_limit + c.b;
                     } else {
                         // factor a is negative, so the lower and upper limits are swapped
-                        upper_limit = c.a * lower_limit + c.b;
-                        lower_limit = c.a * upper_limit + c.b;
+                        let (raw_lower, raw_upper) = (lower_limit, upper_limit);
+                        upper_limit = c.a * raw_lower + c.b;
+                        lower_limit = c.a * raw_upper + c.b;
                     }
                 }
             }
